@@ -123,6 +123,8 @@ structure World where
   events : List String := []        -- per-op observable events (reverse order)
   nas : List Bytes := []            -- UDP sources (IPv4 addresses) known to the harness
   udpPending : Option Nat := none   -- the request object udpserverrd allocated before blocking
+  wr : List (Nat × Bool) := []      -- server-side writer threads under the scheduler: (client, signalled since it went to sleep)
+  wrPre : Nat := 0                  -- bit j: a writer runs at the j-th scheduling point of sendreply within an op
 
 def stOff : Nat := 0
 def ssOff : Nat := 0
